@@ -16,6 +16,12 @@ def import_library():
     os.environ.setdefault("TQDM_DISABLE", "1")
     if REPO not in sys.path:
         sys.path.insert(0, REPO)
+    import warnings
+
+    warnings.simplefilter("ignore")
+    import numpy
+
+    numpy.seterr(all="ignore")
     import histogrammar  # noqa
 
     here = os.path.realpath(os.path.dirname(histogrammar.__file__))
